@@ -346,6 +346,15 @@ Proof.
   destruct Ia as [->|Ia]; [apply H2; rewrite in_app_iff; auto|eauto].
 Qed.
 
+Lemma NoDup_app_intro {A} (a b : list A) :
+  NoDup a -> NoDup b -> (forall x, In x a -> In x b -> False) -> NoDup (a ++ b).
+Proof.
+  induction a as [|x a IH]; intros NA NB Dj; simpl; auto.
+  inversion NA; subst. constructor.
+  - rewrite in_app_iff. intros [I|I]; auto. apply (Dj x); auto. left; auto.
+  - apply IH; auto. intros y I1 I2. apply (Dj y); auto. right; auto.
+Qed.
+
 (** The links [K] survive an update that writes [nx] only at [Wn] and [pv]
     only at [Wp], when [K] sits inside a link list [A ++ K ++ B] without
     repeated sources or targets and every written address is the source
